@@ -103,8 +103,10 @@ Proof.
   nia.
 Qed.
 
-(* e.g. with the limit of 100 levels that the TODOs in variant.go ask for, a 64 KiB message costs at most 3.1 TB: the
-   bound is dominated by the dimension-count finding; without dimensions (7 * len dropped) it is 26 GB, of which 5.8 MB * 101 are the per-level slack *)
+(* what the bound means in numbers, with the limit of 100 levels that the TODOs in variant.go ask for and a 64 KiB message:
+   3.1e12 bytes with the dimension term (7 * len per byte and level: finding variant-dimension-count), 2.6e10 without it, of
+   which 101 * 5.8 MB are the per-level slack (finding nesting-amplification): the bound is a statement about the SHAPE of the
+   growth (linear per level + quadratic reshaping), not a usable resource limit -- that needs the limits the findings ask for *)
 Example C02_memory_numbers :
   ((100 + 1) * ((3854 + 7 * 65536) * 65536 + 5770137) = 3062634812253 /\
    (100 + 1) * (3854 * 65536 + 5770137) = 26092933981)%N.
